@@ -304,5 +304,44 @@ func genC01(g *Gen) {
 			add(cfg, x)
 		}
 	}
+	// targets made of several runs of ones of assorted lengths (what the runs algorithms and
+	// run-length/hybrid decomposers branch on): every runs configuration + a slice of the ensemble
+	runsCfg := []config{}
+	for _, cfg := range append(append([]config{}, ensCfg...), extraCfg...) {
+		if cfg.kind == "runs" {
+			runsCfg = append(runsCfg, cfg)
+		}
+	}
+	for i := 0; i < g.pick(250, 30000); i++ {
+		x := new(big.Int)
+		nr := 3 + g.R.Intn(6)
+		maxlen := 48
+		if g.R.Intn(3) == 0 {
+			maxlen = 24
+		}
+		for r := 0; r < nr; r++ {
+			l := uint(1 + g.R.Intn(maxlen))
+			x.Lsh(x, l)
+			x.Or(x, new(big.Int).Sub(new(big.Int).Lsh(big.NewInt(1), l), big.NewInt(1)))
+			if r+1 < nr {
+				x.Lsh(x, uint(1+g.R.Intn(2)))
+			}
+		}
+		if g.R.Intn(4) == 0 {
+			x.Lsh(x, uint(g.R.Intn(5)))
+		}
+		if g.Thorough && i >= 2000 {
+			// the long tail: only the two configurations most sensitive to chain order
+			add(parseConfig("runs/hr.U.H.A"), x)
+			add(parseConfig("opt/runs/hr.U.H.A"), x)
+			continue
+		}
+		for _, cfg := range runsCfg {
+			add(cfg, x)
+		}
+		for j := 0; j < 6; j++ {
+			add(ensCfg[g.R.Intn(len(ensCfg))], x)
+		}
+	}
 	g.Parallel(tasks)
 }
